@@ -35,7 +35,8 @@ COMPONENTS = {
              'mapproxy.cache.compact.CompactCacheV1/V2', 'mapproxy.cache.mbtiles.MBTilesCache/MBTilesLevelCache',
              'mapproxy.cache.geopackage.GeopackageCache/GeopackageLevelCache', 'sqlite3', 'PIL', 'CPython io'],
     'stub': ['file system for file/compact backends (SimFS)', 'clock'],
-    'outside_the_seams': ['sqlite file I/O on a real tmpfs directory (fault-free histories only)'],
+    'outside_the_seams': ['sqlite file I/O on a real tmpfs directory (fault-free histories only)',
+                          'across-interpreter cases: three real python subprocesses with different PYTHONHASHSEED on a real tmpfs directory'],
 }
 ASSUMPTIONS = [
     'addresses are valid grid addresses (x, y < 2**z); dimension values contain no path separators (that is C09)',
